@@ -117,7 +117,7 @@ def run(ctx, rep):
     # P4 / P5
     plain, selfkeyed = memo_readers(ctx, eff, table_vars)
     if len(plain) < 2:
-        raise AnalysisError("expected >= 2 memoised readers of the table, found %s" % [m.qual for m in plain])
+        rep.note("fewer memoised readers of the table than on the confirmed tree: %s" % [m.qual for m in plain])
     mf = MemoFlow(ctx, eff, setter, rep, plain, table_vars)
     mf.run(frozenset())
     # MemoFlow reports under G6: relabel
